@@ -164,7 +164,7 @@ Compare(op, a, b) ==
 (* == / != : same type on both sides, deep comparison; NULL may be compared   *)
 (* with anything (assumption); functions/modules: don't-care (never generated) *)
 Equal(a, b) ==
-  IF a.t \in {"func", "module"} \/ b.t \in {"func", "module"} THEN Unm
+  IF HasFn(a) \/ HasFn(b) THEN Unm
   ELSE IF a.t # b.t /\ a.t # "null" /\ b.t # "null" THEN Err
   ELSE BoolV(VEq(a, b))
 
@@ -172,7 +172,8 @@ Equal(a, b) ==
 (* (assumption) substring of a string                                          *)
 Member(needle, hay) ==
   CASE hay.t = "tuple" -> IF needle.t = "str" THEN BoolV(HasField(hay.fs, needle.s)) ELSE Err
-    [] hay.t = "list"  -> BoolV(\E j \in 1..Len(hay.es) : needle.t = hay.es[j].t /\ VEq(needle, hay.es[j]))
+    [] hay.t = "list"  -> IF HasFn(needle) \/ HasFn(hay) THEN Unm
+                          ELSE BoolV(\E j \in 1..Len(hay.es) : needle.t = hay.es[j].t /\ VEq(needle, hay.es[j]))
     [] hay.t = "str"   -> IF needle.t = "str" THEN BoolV(IsSubstr(needle.s, hay.s)) ELSE BoolV(FALSE)
     [] OTHER -> Err
 
